@@ -120,6 +120,8 @@ impl WorkerTree {
             .count();
 
         if total_not_done == 0 {
+            // outputs of removed sources still have to be deleted
+            self.clean_files(resources);
             return Ok(());
         }
 
